@@ -132,6 +132,23 @@ Proof.
   split; [|rewrite E2; exact Efl]. rewrite E1, <- Efl. symmetry. apply join_flat.
 Qed.
 
+(* the relevant lists of the suite hold declared enum numbers; then every config case the suite
+   admits does, whatever the config-case set contains *)
+Definition suite_declared (s : suite) : Prop :=
+  incl (s_versions s) declared_versions /\ incl (s_protocols s) (declared c07_protocol_names) /\
+  incl (s_codecs s) (declared c07_codec_names) /\ incl (s_compressions s) (declared c07_compression_names).
+
+Lemma axis_declared all rel dom v : incl all dom -> incl rel dom -> axis_admits all rel v -> In v dom.
+Proof. intros Ha Hr [[_ H]|H]; [apply Ha|apply Hr]; exact H. Qed.
+
+Lemma admitted_case_declared s c : suite_declared s -> admits s c -> case_declared c.
+Proof.
+  intros (Dv & Dp & Dc & Dz) (Ap & Av & Ac & Az & _).
+  destruct all_values_declared as (Ip & Ic & Iz & Iv).
+  split; [exact (axis_declared _ _ _ _ Iv Dv Av)|]. split; [exact (axis_declared _ _ _ _ Ip Dp Ap)|].
+  split; [exact (axis_declared _ _ _ _ Ic Dc Ac)|exact (axis_declared _ _ _ _ Iz Dz Az)].
+Qed.
+
 (* ------------------------------------------------------------------ *)
 (* (1) the full name is injective on well-formed names                  *)
 (* ------------------------------------------------------------------ *)
@@ -434,4 +451,35 @@ Proof.
   intros ss cs mode L H WF DC. apply grpc_names_distinct_proof.
   - eapply names_unique_proof; exact H.
   - eapply library_names_wf_proof; eassumption.
+Qed.
+
+(* the same two statements with the hypothesis on the suites only (declared relevant values):
+   nothing is asked of the config-case set *)
+Theorem full_name_injective_suites_proof : forall ss, NoDup (map s_name ss) ->
+  Forall wf_suite ss -> Forall suite_declared ss ->
+  forall s s' c c' t t', In s ss -> In s' ss -> In t (s_cases s) -> In t' (s_cases s') ->
+  admits s c -> admits s' c' -> t_stream t = c_stream c -> t_stream t' = c_stream c' ->
+  spec_name s c t = spec_name s' c' t' -> s = s' /\ c = c' /\ t = t'.
+Proof.
+  intros ss ND WF SD s s' c c' t t' Hs Hs' Ht Ht' A A' Es Es' E. rewrite Forall_forall in SD.
+  eapply (full_name_injective_proof ss ND WF s s' c c' t t'); try eassumption;
+    eapply admitted_case_declared; try eassumption; apply SD; assumption.
+Qed.
+
+Theorem library_grpc_names_distinct_suites_proof : forall ss cs mode L, new_library ss cs mode = Ok L ->
+  Forall wf_suite ss -> Forall suite_declared ss ->
+  Forall name_wf L /\ forall cl sv, NoDup (map p_name (all_permutations cl sv L)).
+Proof.
+  intros ss cs mode L H WF SD.
+  assert (NW : Forall name_wf L).
+  { apply Forall_forall. intros p Hp.
+    apply (perm_iff_proof _ _ _ _ H) in Hp. destruct Hp as (s & t & c & Hs & Ht & Hc & _ & Ha & _ & ->).
+    rewrite Forall_forall in WF, SD. destruct (WF s Hs) as (Ns & Ft & _). rewrite Forall_forall in Ft.
+    specialize (Ft t Ht). pose proof (admitted_case_declared s c (SD s Hs) Ha) as DC.
+    destruct (spec_name_segments s c t Ns DC Ft) as (E & _).
+    exists (s_name s :: axis_components s c), (split_on 47 (t_name t)).
+    split; [discriminate|]. split; [apply split_on_nonempty|].
+    split; [constructor; [exact Ns|apply axis_components_segs; exact DC]|].
+    split; [exact Ft|]. split; [exact E|]. simpl. symmetry. apply join_split. }
+  split; [exact NW|]. apply grpc_names_distinct_proof; [eapply names_unique_proof; exact H|exact NW].
 Qed.
